@@ -21,6 +21,9 @@ def run(ctx):
     rule_pubkey(ctx, repo)
     rule_wif(ctx, repo)
     rule_no_self_mutation(ctx, repo)
+    r = ctx.rule('C13.I2', 'constant indices into key / signature byte strings are guarded by a length test on every path', engine='GUARD', floor=1)
+    fs = [f for q, f in sorted(repo.functions.items()) if q.startswith(('bitcoin.wallet.CBitcoinSecret.', 'bitcoin.wallet.CKey.', 'bitcoin.core.key.CPubKey.', 'bitcoin.core.key.CECKey.'))]
+    common.const_index_instances(r, repo, fs, what='a shorter byte string raises IndexError')
     r = ctx.rule('C13.P1', 'the secret-key version byte is read from the selected chain at call time', engine='OWN', floor=1)
     common.rule_call_time_params(r, repo, files={'bitcoin/wallet.py', 'bitcoin/core/key.py'})
     ctx.not_decided += ['k*G, the ECDSA verification equation, strict DER of libcrypto output: delegated to libcrypto, not applicable to this family',
